@@ -221,10 +221,13 @@ def harness_dir():
         return HARNESS
     d = CACHE + '/harness' + TAG
     os.makedirs(d, exist_ok=True)
-    sh(['rsync', '-a', '--delete', '--exclude', 'Cargo.toml', '--exclude', 'Cargo.lock', '--exclude', 'target', HARNESS + '/', d + '/'])
+    sh(['rsync', '-a', '--delete', '--exclude', 'Cargo.toml', '--exclude', 'Cargo.lock', '--exclude', 'target', '--exclude', '/src/main.rs', HARNESS + '/', d + '/'])
     toml = open(HARNESS + '/Cargo.toml').read().replace('/repo/borsh', REPO + '/borsh')
     if not os.path.exists(d + '/Cargo.toml') or open(d + '/Cargo.toml').read() != toml:
         open(d + '/Cargo.toml', 'w').write(toml)
+    main = open(HARNESS + '/src/main.rs').read().replace('"/repo/borsh/', '"' + REPO + '/borsh/')
+    if not os.path.exists(d + '/src/main.rs') or open(d + '/src/main.rs').read() != main:
+        open(d + '/src/main.rs', 'w').write(main)
     return d
 
 
